@@ -2,6 +2,8 @@ use crate::mon::Check;
 
 pub mod hist;
 pub mod libq;
+pub mod lsp11;
+pub mod lsp12;
 pub mod norm;
 
 pub fn all() -> Vec<Box<dyn Check>> {
@@ -12,6 +14,8 @@ pub fn all() -> Vec<Box<dyn Check>> {
     for p in ["C05", "C15", "C17", "C18"] {
         v.push(Box::new(libq::LibQ { prop: p }));
     }
+    v.push(Box::new(lsp11::C11));
+    v.push(Box::new(lsp12::C12));
     for p in ["C04", "C20"] {
         v.push(Box::new(hist::HistCheck { prop: p }));
     }
